@@ -1,5 +1,6 @@
 import Rp2.Proofs.JpRows
 import Rp2.Proofs.JpChain
+import Rp2.Proofs.JpSummary
 /-! # C20 — Japanese tax report: one sheet per asset-year, chained in year order -/
 namespace Rp2.C20
 open Rp2
@@ -19,4 +20,17 @@ theorem years_sorted_once (l : List Int) :
 theorem sheet_rows_each_once (name : String) (ts : List JTx) (k : Nat) (rows : List JRow) (h : jpRows name ts k = .ok rows) :
     rows.map (fun r => (r.month, r.day)) = (ts.filter jListed).map jDate ∧
     rows.map (·.row) = List.range' (k + 1) rows.length ∧ ∀ r ∈ rows, r.sheet = name := jpRows_spec name ts k rows h
+/-- the summary sheets: every asset-year sheet of the run has exactly one line — in generation order — that carries the sheet's year (the
+    summary sheet `<year>_Summary` it is written to), its asset, its name and its closing-balance row; the lines of one year stand on
+    consecutive rows from 8 (`RowsOk`: the row of a line is 8 + the number of earlier lines of the same year) -/
+theorem summary_lines (shs : List JSheet) :
+    (jpSummaries shs).map JSumLine.key = shs.map JSheet.key ∧ RowsOk (jpSummaries shs) := jpSummaries_spec shs
+/-- the sheets generated for an asset are tagged with that asset and with the years they are about -/
+theorem sheets_carry_asset_and_year (asset : String) (all : List JTx) (ys : List Int) (po : Nat) (py : Int) (shs : List JSheet)
+    (h : jpSheets true asset all ys po py = .ok shs) : shs.map (fun s => (s.asset, s.year)) = ys.map (fun y => (asset, y)) :=
+  jpSheets_tags asset all ys po py shs h
+example : (jpSummaries [{ name := "A_2020", rows := [], prevRef := none, closeRow := 30, asset := "A", year := 2020 },
+                        { name := "A_2022", rows := [], prevRef := none, closeRow := 31, asset := "A", year := 2022 },
+                        { name := "B_2022", rows := [], prevRef := none, closeRow := 33, asset := "B", year := 2022 }]).map (fun l => (l.year, l.row, l.asset)) =
+    [(2020, 8, "A"), (2022, 8, "A"), (2022, 9, "B")] := by decide
 end Rp2.C20
